@@ -7,13 +7,14 @@
 //! the ordered log of (reader, value it saw).
 use any_spawner::{CustomExecutor, Executor, PinnedFuture, PinnedLocalFuture};
 use reactive_graph::{
-    effect::Effect,
+    computed::Memo,
+    effect::{Effect, ImmediateEffect, RenderEffect},
     owner::Owner,
     signal::ArcTrigger,
-    traits::{Notify, Read, ReadUntracked, Track, Write},
+    traits::{Get, Notify, Read, ReadUntracked, Track, With, Write},
 };
 use reactive_stores::{
-    ArcField, AtKeyed, Field, KeyedSubfield, OptionStoreExt, Patch, PatchField, Store, StoreField,
+    ArcField, ArcStore, AtKeyed, DerefField, Field, KeyedSubfield, OptionStoreExt, Patch, PatchField, Store, StoreField,
     StoreFieldIterator,
 };
 use std::{
@@ -21,7 +22,6 @@ use std::{
     collections::VecDeque,
     marker::PhantomData,
     ops::Deref,
-    rc::Rc,
     sync::{Arc, Mutex},
     task::{Context, Wake, Waker},
 };
@@ -176,6 +176,22 @@ pub struct Sub {
     x: i64,
     l: Leaf,
     v: Vec<i64>,
+    b: Box<Leaf>,
+}
+
+/// a boxed value is patched as a whole (reactive_stores has no PatchField for Box)
+impl PatchField for Box<Leaf> {
+    fn patch_field(
+        &mut self,
+        new: Self,
+        path: &reactive_stores::StorePath,
+        notify: &mut dyn FnMut(&reactive_stores::StorePath),
+    ) {
+        if new != *self {
+            *self = new;
+            notify(path);
+        }
+    }
 }
 
 #[derive(Debug, Clone, Default, PartialEq, Store, Patch)]
@@ -243,6 +259,11 @@ pub trait Val: Sized + Clone + PatchField + Send + Sync + 'static {
     fn iter_read<S: FldBase<Self>>(_s: &S) -> Option<Sexp> {
         None
     }
+    /// for options: look at the field through OptionStoreExt::map (how = 6) / invert (how = 7);
+    /// the closure reads the inner value WITHOUT tracking it
+    fn opt_read<S: FldBase<Self>>(_s: &S, _how: i64) -> Option<Sexp> {
+        None
+    }
 }
 
 fn node<T: Val, S: Fld<T>>(s: S) -> Option<Box<dyn Node>> {
@@ -307,19 +328,44 @@ impl Val for Item {
 
 impl Val for Sub {
     fn enc(&self) -> Sexp {
-        Lst(vec![self.x.enc(), self.l.enc(), self.v.enc()])
+        Lst(vec![self.x.enc(), self.l.enc(), self.v.enc(), self.b.enc()])
     }
     fn dec(s: &Sexp) -> Self {
-        Sub { x: i64::dec(s.at(0)), l: Leaf::dec(s.at(1)), v: Vec::<i64>::dec(s.at(2)) }
+        Sub {
+            x: i64::dec(s.at(0)),
+            l: Leaf::dec(s.at(1)),
+            v: Vec::<i64>::dec(s.at(2)),
+            b: Box::<Leaf>::dec(s.at(3)),
+        }
     }
     fn has_child(&self, st: Step) -> bool {
-        st.0 == 0 && (0..3).contains(&st.1)
+        st.0 == 0 && (0..4).contains(&st.1)
     }
     fn child<S: FldBase<Self>>(s: &S, st: Step) -> Option<Box<dyn Node>> {
         match st {
             (0, 0) => node(s.clone().x()),
             (0, 1) => node(s.clone().l()),
             (0, 2) => node(s.clone().v()),
+            (0, 3) => node(s.clone().b()),
+            _ => None,
+        }
+    }
+}
+
+/// `Box<Leaf>`: step (5 0) = `.deref_field()` (DerefField), same path, the boxed value
+impl Val for Box<Leaf> {
+    fn enc(&self) -> Sexp {
+        self.deref().enc()
+    }
+    fn dec(s: &Sexp) -> Self {
+        Box::new(Leaf::dec(s))
+    }
+    fn has_child(&self, st: Step) -> bool {
+        st.0 == 5
+    }
+    fn child<S: FldBase<Self>>(s: &S, st: Step) -> Option<Box<dyn Node>> {
+        match st {
+            (5, _) => node::<Leaf, _>(s.clone().deref_field()),
             _ => None,
         }
     }
@@ -398,6 +444,18 @@ impl<T: Val> Val for Option<T> {
             _ => None,
         }
     }
+    fn opt_read<S: FldBase<Self>>(s: &S, how: i64) -> Option<Sexp> {
+        let inner: Option<Option<Sexp>> = if how == 6 {
+            s.clone().map(|f| f.try_read_untracked().map(|g| g.deref().enc()))
+        } else {
+            s.clone().invert().map(|f| f.try_read_untracked().map(|g| g.deref().enc()))
+        };
+        Some(match inner {
+            None => Lst(vec![]),
+            Some(Some(v)) => Lst(vec![v]),
+            Some(None) => Lst(vec![Num(-1)]),
+        })
+    }
 }
 
 impl<T: Val> Val for Vec<T> {
@@ -434,8 +492,10 @@ impl<T: Val> Val for Vec<T> {
 
 /// a type-erased store field
 pub trait Node {
-    /// tracked read (`Read::try_read`), serialised; `(-1)` if the field yields no guard
-    fn read(&self) -> Sexp;
+    /// tracked read, serialised; `(-1)` if the field yields no guard.  how: 0 Read::try_read,
+    /// 2 Get::try_get, 3 With::try_with, 4 Track::track + try_read_untracked,
+    /// 5 StoreField::track_field + reader, 1 iterate, 6 / 7 OptionStoreExt::map / invert
+    fn read(&self, how: i64) -> Sexp;
     /// untracked look at the current value: is the child addressed by `st` there?
     fn has_child(&self, st: Step) -> bool;
     fn child(&self, st: Step) -> Option<Box<dyn Node>>;
@@ -457,11 +517,41 @@ pub trait Node {
 /// a field, its value type, and how to hand it on as a type-erased `ArcField` (if possible)
 struct N<S, T: 'static>(S, PhantomData<T>, Option<fn(&S) -> ArcField<T>>);
 
+impl<T: Val, S: FldBase<T>> N<S, T> {
+    fn opt_read(&self, how: i64) -> Option<Sexp> {
+        T::opt_read(&self.0, how)
+    }
+}
+
 impl<T: Val, S: FldBase<T>> Node for N<S, T> {
-    fn read(&self) -> Sexp {
+    fn read(&self, how: i64) -> Sexp {
+        let none = || Lst(vec![Num(-1)]);
+        match how {
+            1 => {
+                if let Some(v) = self.iter_read() {
+                    return v;
+                }
+            }
+            6 | 7 => {
+                if let Some(v) = self.opt_read(how) {
+                    return v;
+                }
+            }
+            2 => return self.0.try_get().map(|v| v.enc()).unwrap_or_else(none),
+            3 => return self.0.try_with(|v| v.enc()).unwrap_or_else(none),
+            4 => {
+                self.0.track();
+                return self.0.try_read_untracked().map(|g| g.deref().enc()).unwrap_or_else(none);
+            }
+            5 => {
+                self.0.track_field();
+                return self.0.reader().map(|g| g.deref().enc()).unwrap_or_else(none);
+            }
+            _ => {}
+        }
         match self.0.try_read() {
             Some(g) => g.deref().enc(),
-            None => Lst(vec![Num(-1)]),
+            None => none(),
         }
     }
     fn has_child(&self, st: Step) -> bool {
@@ -515,10 +605,29 @@ where
     Prev: 'static,
     KeyedSubfield<Inner, Prev, i64, Vec<Item>>: FldBase<Vec<Item>>,
 {
-    fn read(&self) -> Sexp {
+    fn read(&self, how: i64) -> Sexp {
+        let none = || Lst(vec![Num(-1)]);
+        match how {
+            1 => {
+                if let Some(v) = self.iter_read() {
+                    return v;
+                }
+            }
+            2 => return self.0.try_get().map(|v| v.enc()).unwrap_or_else(none),
+            3 => return self.0.try_with(|v| v.enc()).unwrap_or_else(none),
+            4 => {
+                self.0.track();
+                return self.0.try_read_untracked().map(|g| g.deref().enc()).unwrap_or_else(none);
+            }
+            5 => {
+                self.0.track_field();
+                return self.0.reader().map(|g| g.deref().enc()).unwrap_or_else(none);
+            }
+            _ => {}
+        }
         match self.0.try_read() {
             Some(g) => g.deref().enc(),
-            None => Lst(vec![Num(-1)]),
+            None => none(),
         }
     }
     fn has_child(&self, st: Step) -> bool {
@@ -578,12 +687,24 @@ fn steps_of(s: &Sexp) -> Vec<Step> {
     s.list().iter().map(|st| (st.at(0).num(), st.at(1).num())).collect()
 }
 
+/// the two handles of the store of a case
+#[derive(Clone)]
+struct Roots {
+    store: Store<Root>,
+    arc: ArcStore<Root>,
+}
+
 /// follow `chain` from the root as far as the current value allows (untracked look-ahead);
-/// returns the node reached and how many steps were taken
-fn walk(root: &Store<Root>, chain: &[Step]) -> (Box<dyn Node>, usize) {
-    let mut cur: Box<dyn Node> = node::<Root, _>(*root).unwrap();
-    for (j, st) in chain.iter().enumerate() {
-        if !cur.has_child(*st) {
+/// returns the node reached and how many steps were taken.  A first step (4 2) starts from
+/// the `ArcStore` handle instead of the arena-allocated `Store`.
+fn walk(roots: &Roots, chain: &[Step]) -> (Box<dyn Node>, usize) {
+    let (mut cur, start): (Box<dyn Node>, usize) = if chain.first() == Some(&(4, 2)) {
+        (node::<Root, _>(roots.arc.clone()).unwrap(), 1)
+    } else {
+        (node::<Root, _>(roots.store).unwrap(), 0)
+    };
+    for (j, st) in chain.iter().enumerate().skip(start) {
+        if *st == (4, 2) || !cur.has_child(*st) {
             return (cur, j);
         }
         match cur.child(*st) {
@@ -594,29 +715,41 @@ fn walk(root: &Store<Root>, chain: &[Step]) -> (Box<dyn Node>, usize) {
     (cur, chain.len())
 }
 
-/// What a reader effect does: read (tracked) the field its chain addresses.  If the chain is
+/// What a reader does: read (tracked) the field its chain addresses.  If the chain is
 /// currently cut short by a `None` / a missing index / a missing key it reads nothing from
 /// the store (it is re-run only by its own `poke` trigger, see step 4).
 /// Observation: (steps taken, value read) or (steps taken).
-fn reader_body(root: &Store<Root>, chain: &[Step], iterate: bool) -> Sexp {
-    let (n, j) = walk(root, chain);
+fn reader_body(roots: &Roots, chain: &[Step], how: i64) -> Sexp {
+    let (n, j) = walk(roots, chain);
     if j == chain.len() {
-        let v = if iterate { n.iter_read() } else { None };
-        Lst(vec![Num(j as i64), v.unwrap_or_else(|| n.read())])
+        Lst(vec![Num(j as i64), n.read(how)])
     } else {
         Lst(vec![Num(j as i64)])
     }
 }
 
-type Log = Rc<RefCell<Vec<Sexp>>>;
+type Log = Arc<Mutex<Vec<Sexp>>>;
 
-fn phase(log: &Log) -> Sexp {
-    let wakes = take_wake_log();
-    let runs = std::mem::take(&mut *log.borrow_mut());
-    Lst(vec![Sexp::from_nums(wakes.into_iter().map(|x| x as i64)), Lst(runs)])
+/// wake-ups are recorded per executor task; translate them to reader numbers
+fn phase(log: &Log, task_reader: &[i64]) -> Sexp {
+    // order of the FIRST wake-up of every reader's task in this phase (the effect behind a
+    // Memo is woken a second time, while it runs, when the memo's value has changed)
+    let mut wakes: Vec<i64> = vec![];
+    for x in take_wake_log() {
+        let r = task_reader.get(x).copied().unwrap_or(-1);
+        if !wakes.contains(&r) {
+            wakes.push(r);
+        }
+    }
+    let runs = std::mem::take(&mut *log.lock().unwrap());
+    Lst(vec![Sexp::from_nums(wakes), Lst(runs)])
 }
 
-/// (0 init readers steps sched key-orders flavours)
+fn n_tasks() -> usize {
+    EXEC.with(|e| e.borrow().tasks.len())
+}
+
+/// (0 init readers steps sched key-orders read-kinds subscriber-kinds)
 fn c16(c: &Sexp) -> Sexp {
     exec_reset();
     let init = Root::dec(c.at(1));
@@ -626,26 +759,62 @@ fn c16(c: &Sexp) -> Sexp {
 
     let owner = Owner::new();
     owner.set();
-    let store = Store::new(init);
-    let log: Log = Rc::new(RefCell::new(vec![]));
+    let arc = ArcStore::new(init);
+    let roots = Roots { store: Store::from(arc.clone()), arc };
+    let store = roots.clone();
+    let log: Log = Arc::new(Mutex::new(vec![]));
     let mut out = vec![];
     let mut last: std::collections::HashMap<Vec<Step>, Vec<(i64, i64)>> = Default::default();
 
     // one private trigger per reader: every run tracks it, `(4 reader)` notifies it
     let pokes: Vec<ArcTrigger> = readers.iter().map(|_| ArcTrigger::new()).collect();
+    // subscriber kinds: 0 Effect::new, 1 ImmediateEffect::new, 2 RenderEffect::new,
+    // 3 Memo::new read by an Effect, 4 Effect::new_isomorphic
+    let mut keep_immediate = vec![];
+    let mut keep_render = vec![];
+    let mut task_reader: Vec<i64> = vec![];
     for (rid, chain) in readers.iter().enumerate() {
         let chain = chain.clone();
         let log = log.clone();
         let poke = pokes[rid].clone();
-        let iterate = c.at(6).at(rid).num() != 0;
-        Effect::new(move |_: Option<()>| {
+        let how = c.at(6).at(rid).num();
+        let store = store.clone();
+        let body = move || {
             poke.track();
-            let v = reader_body(&store, &chain, iterate);
-            log.borrow_mut().push(Lst(vec![Num(rid as i64), v]));
-        });
+            let v = reader_body(&store, &chain, how);
+            log.lock().unwrap().push(Lst(vec![Num(rid as i64), v.clone()]));
+            v
+        };
+        match c.at(7).at(rid).num() {
+            1 => keep_immediate.push(ImmediateEffect::new(move || {
+                body();
+            })),
+            2 => keep_render.push(RenderEffect::new(move |_: Option<()>| {
+                body();
+            })),
+            3 => {
+                let memo = Memo::new(move |_: Option<&Sexp>| body());
+                Effect::new(move |_: Option<()>| {
+                    memo.with(|_| ());
+                });
+            }
+            4 => {
+                Effect::new_isomorphic(move |_: Option<()>| {
+                    body();
+                });
+            }
+            _ => {
+                Effect::new(move |_: Option<()>| {
+                    body();
+                });
+            }
+        }
+        while task_reader.len() < n_tasks() {
+            task_reader.push(rid as i64);
+        }
     }
     drain(&sched, &mut spos);
-    out.push(phase(&log));
+    out.push(phase(&log, &task_reader));
 
     for st in c.at(3).list() {
         let op = st.at(0).num();
@@ -659,7 +828,7 @@ fn c16(c: &Sexp) -> Sexp {
                 }
             }
             drain(&sched, &mut spos);
-            let mut ph = phase(&log);
+            let mut ph = phase(&log, &task_reader);
             if let Lst(v) = &mut ph {
                 v.push(Num(done));
             }
@@ -667,7 +836,7 @@ fn c16(c: &Sexp) -> Sexp {
             continue;
         }
         let chain = steps_of(st.at(1));
-        let (n, j) = walk(&store, &chain);
+        let (n, j) = walk(&roots, &chain);
         let mut done = 0;
         if j == chain.len() {
             match op {
@@ -679,7 +848,7 @@ fn c16(c: &Sexp) -> Sexp {
                 2 => {
                     // report the path segments of the addressed field
                     drain(&sched, &mut spos);
-                    let mut ph = phase(&log);
+                    let mut ph = phase(&log, &task_reader);
                     if let Lst(v) = &mut ph {
                         v.push(Sexp::from_nums(n.path()));
                     }
@@ -711,7 +880,7 @@ fn c16(c: &Sexp) -> Sexp {
                             .collect::<Vec<_>>();
                         last.insert(chain.clone(), ks);
                         drain(&sched, &mut spos);
-                        let mut ph = phase(&log);
+                        let mut ph = phase(&log, &task_reader);
                         if let Lst(v) = &mut ph {
                             v.push(Lst(vec![Sexp::from_nums(pattern), Sexp::from_nums(same)]));
                         }
@@ -723,14 +892,16 @@ fn c16(c: &Sexp) -> Sexp {
             }
         }
         drain(&sched, &mut spos);
-        let mut ph = phase(&log);
+        let mut ph = phase(&log, &task_reader);
         if let Lst(v) = &mut ph {
             v.push(Num(done));
         }
         out.push(ph);
     }
     // final value of the store (so that a divergence of the data itself is visible)
-    out.push(store.read_untracked().enc());
+    out.push(roots.store.read_untracked().enc());
+    drop(keep_immediate);
+    drop(keep_render);
     owner.cleanup();
     owner.unset();
     exec_reset();
